@@ -364,6 +364,7 @@ func (tp *ethTxPool) promoteExecutables(addrs []common.Address) {
 		for addr := range tp.waiting {
 			addrs = append(addrs, addr)
 		}
+		addrs = verifAccountOrder(addrs)
 	}
 
 	for _, addr := range addrs {
